@@ -404,6 +404,83 @@ def r1_4(ctx):
     ctx.count('atom_transformations', n_fn)
 
 
+def r1_5(ctx):
+    """fullword border tests reach exactly as far as they read: the guard that
+    makes the neighbouring character readable admits every position where that
+    character exists, and no position where it does not"""
+    import re
+    prog = ctx.prog
+    f = prog.fn('_yr_scan_match_callback', 'libyara/scan.c')
+    if f is None:
+        ctx.require(ctx.fixture, '_yr_scan_match_callback not found')
+        return
+    blocks = [n for n in f.all_nodes() if n['k'] == 'if' and canon(f, f.kid(n, 0)).endswith('full_word')]
+    ctx.require(blocks or ctx.fixture, 'fullword block not found')
+    k = 0
+    for blk in blocks:
+        for n in f.walk(f.kids(blk)[1]):
+            if n['k'] != 'if':
+                continue
+            conj = []
+            stack = [f.kid(n, 0)]
+            while stack:
+                x = cu.strip_casts(f, stack.pop())
+                if x is not None and x['k'] == 'bin' and x['op'] == '&&':
+                    stack.extend([f.kid(x, 1), f.kid(x, 0)])
+                elif x is not None:
+                    conj.append(x)
+            if len(conj) < 2:
+                continue
+            g = canon(f, conj[0])
+            m1 = re.match(r'^\((\w+) (>=|>) (\d+)\)$', g)
+            m2 = re.match(r'^\(\(\((\w+) \+ (\w+)\) \+ (\d+)\) < (.+)\)$', g)
+            m3 = re.match(r'^\(\((\w+) \+ (\w+)\) < (.+)\)$', g)
+            if not (m1 or m2 or m3) and conj[0]['k'] == 'bin' and conj[0]['op'] in ('<', '<=', '>', '>='):
+                ctx.ob('R1.5', '_yr_scan_match_callback:border%d:guard-shape' % k, False, f.loc(n),
+                       'the border test is guarded by %s, which is not of the form offset >= K / offset + '
+                       'length [+ K] < size' % g)
+                k += 1
+                continue
+            reads = []
+            for c in conj[1:]:
+                for x in f.walk(c):
+                    e = None
+                    if x['k'] == 'un' and x['op'] == '*':
+                        e = canon(f, f.kid(x, 0))
+                    elif x['k'] == 'call' and x.get('callee') == 'yr_isalnum':
+                        e = canon(f, f.call_args(x)[0])
+                    if e:
+                        reads.append(e)
+            if not reads or not (m1 or m2 or m3):
+                continue
+            if m1:
+                K = int(m1.group(3)) + (1 if m1.group(2) == '>' else 0)
+                offs = [int(mm.group(1)) for mm in (re.match(r'^\(\w+ - (\d+)\)$', e) for e in reads) if mm]
+                side = 'before'
+            else:
+                K = int(m2.group(3)) if m2 else 0
+                L = (m2 or m3).group(2)
+                offs = []
+                for e in reads:
+                    mm = re.match(r'^\(\(\w+ \+ %s\) \+ (\d+)\)$' % re.escape(L), e)
+                    if mm:
+                        offs.append(int(mm.group(1)))
+                    elif re.match(r'^\(\w+ \+ %s\)$' % re.escape(L), e):
+                        offs.append(0)
+                side = 'after'
+            ok = len(offs) == len(reads) and offs and max(offs) == K
+            ctx.ob('R1.5', '_yr_scan_match_callback:border%d(%s):guard-reaches-what-is-read' % (k, side), ok,
+                   f.loc(n),
+                   'guard %s, furthest byte read at distance %d' % (g, K) if ok else
+                   'the border test is guarded by %s but reads %s: %s' % (
+                       g, ', '.join(reads),
+                       'bytes outside the buffer can be read' if offs and max(offs) > K else
+                       'a neighbouring character that exists right at the edge of the buffer is not '
+                       'examined, so a non-fullword occurrence there is reported'))
+            k += 1
+    ctx.count('fullword_border_tests', k)
+
+
 def canon_stmt(f, n, depth=0):
     """statement-level canonical form (control structure + canon of expressions)"""
     if n is None or depth > 30:
@@ -456,3 +533,5 @@ def run(ctx):
     ctx.floor('R1.3', 9)
     r1_4(ctx)
     ctx.floor('R1.4', 3)
+    r1_5(ctx)
+    ctx.floor('R1.5', 4)
